@@ -110,7 +110,7 @@ PROPS = {
                        "(run_concat), Base16 accepts exactly even-length hex text. The encoders use slice::chunks and fmt::Write "
                        "(outside Verus): Kani proves display* == the same RFC arithmetic per chunk length over all octet values.",
         "not_covered": "Multi-chunk encoder output beyond the bounded harnesses rests on slice::chunks composing per chunk (assumed). "
-                       "SymbolConverter::{process_char, process_tail} of base64 and base32 are under contract (same state machines); the process_symbol wrappers (trait-generic symbol to char conversion) and the base16 SymbolConverter are not. How the text reaches a converter is under contract for IterScanner (unit iterscan: convert_token / convert_entry feed the symbols in order and call process_tail once, last) and not for the zone-file EntryScanner (its convert_entry rewrites the buffer in place: C07). Standard-alphabet Base32 is not implemented by the "
+                       "The scanner-side converters are under contract in all three units: SymbolConverter::{process_char, process_tail, process_symbol} of base64 and base32 and SymbolConverter::{process_symbol, process_tail} of base16 (real text; the same state machines as the Decoders, one step per symbol on the character the symbol stands for, a symbol that stands for no character refused, an end-of-token symbol changing nothing); Symbol::into_char itself is a model (which character a symbol stands for: C06 / C07). How the text reaches a converter is under contract for IterScanner (unit iterscan: convert_token / convert_entry feed the symbols in order and call process_tail once, last) and not for the zone-file EntryScanner (its convert_entry rewrites the buffer in place: C07). Standard-alphabet Base32 is not implemented by the "
                        "library. Fixed-capacity targets that refuse to grow (ShortBuf) are outside the contracts (D13). "
                        "Non-canonical trailing bits are accepted by the decoders (RFC 4648 section 3.5 permits either).",
         "assumptions": [
@@ -509,9 +509,11 @@ PROPS = {
                        "the HMAC after the message is exactly the RFC 8945 4.3.3 TSIG variables in order -- key name in canonical wire form (labels "
                        "lower-cased), CLASS ANY, TTL 0, algorithm name, 48-bit time signed, fudge, error, other length (6 or 0) and the other data. One native replay computes the MAC of a BADTIME error "
                        "response independently (regression guard for D9, a sample, not an obligation).",
-        "not_covered": "MAC values (ring) and the message part of the signed octets (SigningContext::*: the tsig feature is not built under Kani), end-to-end sign/verify, tamper rejection, TSIG record placement "
-                       "(MessageTsig::from_message), unsigned-message run length in ClientSequence::answer_subsequent (inside a "
-                       "generic function over Message), restoring the pre-signing octets.",
+        "not_covered": "MAC values (ring) and the message part of the signed octets (SigningContext::*: the tsig feature is not built under Kani), end-to-end sign/verify, tamper rejection beyond the searches, the server side beyond ServerSequence::answer_with_fudge "
+                       "(ServerTransaction, ServerSequence::request), the client's single-message transaction "
+                       "(ClientTransaction::answer), restoring the pre-signing octets (remove_tsig / update_id on the real Message). "
+                       "TSIG record placement (MessageTsig::from_message, unit tsigplace) and the run of unsigned messages "
+                       "(ClientSequence::answer_subsequent, unit tsigseq) are under contract over a model of Message.",
         "assumptions": [
             "ring::hmac::{Algorithm, Tag} are prelude models (digest lengths 20/32/48/64); constant_time_eq is slice equality",
             "core::cmp::max is specified through vstd's OrdSpec",
@@ -1077,8 +1079,11 @@ PROPS = {
         ],
         "not_covered": "The macro-generated enums ZoneRecordData/AllRecordData (rdata/macros.rs: one match arm per method and variant; "
                        "extraction works on syn items, not macro bodies, and CBMC does not finish on the enum even for one variant: "
-                       "only the native search c05_search_small_rdata reaches it; it is what decides seeded change C05-6). All other types (NS-family, SOA, TXT, NAPTR, CAA, RRSIG, the NSEC/NSEC3 records around the bitmap, NSEC3PARAM, SVCB/HTTPS, OPT and its "
-                       "options, TSIG, ZONEMD, IPSECKEY, OPENPGPKEY, CDS/CDNSKEY, Unknown/opaque carry), symbolic names inside RDATA "
-                       "(CBMC does not finish on symbolic names), LongRecordData limits near 65535 octets.",
+                       "only the native search c05_search_small_rdata reaches it; it is what decides seeded change C05-6). The types not named in the explanation: the one-name family generated by macro (NS, CNAME, PTR, DNAME, MB, MD, MF, MG, MR: "
+                       "rdata/rfc1035/name.rs and macros), A / AAAA, NULL, WKS-era types, RRSIG's own compose / parse (its fields are under "
+                       "contract in C12's unit rrsigdata), the SVCB/HTTPS parameter section beyond the target name and its framing "
+                       "(svcparams: C01), OPT and its options, the TSIG record beyond new / rdlen, IPSECKEY, Unknown/opaque carry; "
+                       "symbolic names inside RDATA under Kani (CBMC does not finish on them; the Verus units treat names as arbitrary "
+                       "label sequences), LongRecordData limits near 65535 octets beyond check_len / check_append_len.",
     },
 }
